@@ -136,6 +136,8 @@ def genrunAns (c hw s ns n ev st : String) : String :=
   mcqlx <unset|nilval|int|…>           → ok null | err                      (gocql.Marshal of the remaining value kinds)
   etext <text> / ejson <data> / emcql <col> <kind> <content> / eucql <col> <kind> <data|null> / eucqlt <col> <data|null>
                                        → ok | <E|M|U>:<hex of err.Error()> | <E|M|U>:nonascii   (Go error type: other / MarshalError / UnmarshalError)
+  ucqlum <col> <direct|nullable> <data|null|-> → ok called <col> <data> | ok nilptr    (gocql.Unmarshal into a user Unmarshaler / a **Unmarshaler)
+  mcqlm <col> <value|ptr|nilptr> <data|null|-> → ok <data>                         (gocql.Marshal of a user Marshaler returning these bytes)
   mcqlp <hex16|nil>                    → ok null|<16 bytes>                (gocql.Marshal of a *UUID)
   useq <prev16> <step>...              → ok:<dst>|err:<dst> per step, all on ONE destination
   rtdirty <prev16> <u16>               → u (every printer → every decoder, destination holding prev)
@@ -294,6 +296,20 @@ def step (_ : Unit) (ws : List String) : Unit × String :=
       | _, _ => "bad-op"
   | ["eucqlt", col, d] => match optBytes d with
       | some d => showErr (Uuid.unmarshalTimeErr (col == "timeuuid") (d.getD []))
+      | none => "bad-op"
+  -- user types: an Unmarshaler destination gets (column type, column value) verbatim — also through a nullable **T, where a
+  -- null never reaches it (nil pointer); a Marshaler value's bytes are the column value, unvalidated; a nil pointer is null
+  | ["ucqlum", col, ptr, d] => match optBytes d with
+      | some d =>
+        let shown := match d with | none => "null" | some b => toHex b
+        if ptr == "direct" then s!"ok called {col} {shown}"
+        else if ptr == "nullable" then (match d with | none => "ok nilptr" | some _ => s!"ok called {col} {shown}")
+        else "bad-op"
+      | none => "bad-op"
+  | ["mcqlm", _, ptr, d] => match optBytes d with
+      | some d =>
+        let shown := match d with | none => "null" | some b => toHex b
+        if ptr == "value" || ptr == "ptr" then s!"ok {shown}" else if ptr == "nilptr" then "ok null" else "bad-op"
       | none => "bad-op"
   | ["mcqlp", c] => match optBytes c with                                         -- C19_cql_nullable_roundtrip
       | some u => match Uuid.marshalPtr u with
